@@ -72,7 +72,7 @@ var (
 	gSchemes  = []string{"http", "https", "HTTP"}
 	gHosts    = []string{"example.com", "Example.COM", "example.com:8080", "other.org"}
 	gPaths    = []string{"", "/", "/a", "/a/", "/A", "/a/b", "/a/./b", "/a/c/../b", "/c/..", "/a/b/"}
-	gQueries  = []string{"", "?x=1", "?x=1&y=2", "?y=2&x=1", "?x=1&x=2", "?x=2&x=1", "?x=1&x=1", "?x=2"}
+	gQueries  = []string{"", "?x=1", "?x=1&y=2", "?y=2&x=1", "?x=1&x=2", "?x=2&x=1", "?x=1&x=1", "?x=2", "?x=2&y=1", "?a=1&b=2&c=3", "?a=2&b=3&c=1"}
 	gFrags    = []string{"", "#f"}
 	subScheme = []string{"http", "HTTPS"}
 	subHosts  = []string{"example.com", "EXAMPLE.com", "example.com:8080"}
